@@ -176,9 +176,15 @@ def check_transition(prev, cfg, ev, new, r, stray):
 # (suffix variants of one byte content, sessions started from different directories with a relative storage-dir)
 
 SITES = {"txt": "outsource('payload')", "bin": "outsource(b'payload')", "json": "outsource('payload', suffix='.json')",
-         "btxt": "outsource(b'payload', suffix='.txt')", "other": "outsource('other-data')", "png": "outsource(b'\\x89PNG\\x00', suffix='.png')"}
+         "btxt": "outsource(b'payload', suffix='.txt')", "other": "outsource('other-data')", "png": "outsource(b'\\x89PNG\\x00', suffix='.png')",
+         # suffixes at the edge of the documented name format <hash>.<suffix> (several parts, upper case, digits, bare dot, no dot, dash)
+         "targz": "outsource(b'payload', suffix='.tar.gz')", "upper": "outsource('payload', suffix='.TXT')", "num": "outsource(b'payload', suffix='.7z')",
+         "dot": "outsource(b'payload', suffix='.')", "nodot": "outsource(b'payload', suffix='txt')", "dash": "outsource('payload', suffix='.my-ext')"}
+EDGE_SITES = ("targz", "upper", "num", "dot", "nodot", "dash")
 SITE_DATA = {"txt": (b"payload", ".txt"), "bin": (b"payload", ".bin"), "json": (b"payload", ".json"), "btxt": (b"payload", ".txt"),
-             "other": (b"other-data", ".txt"), "png": (b"\x89PNG\x00", ".png")}
+             "other": (b"other-data", ".txt"), "png": (b"\x89PNG\x00", ".png"),
+             "targz": (b"payload", ".tar.gz"), "upper": (b"payload", ".TXT"), "num": (b"payload", ".7z"), "dot": (b"payload", "."), "nodot": (b"payload", "txt"),
+             "dash": (b"payload", ".my-ext")}
 H_FLOWS = {
     "together": [("both", ["create"]), ("both", []), ("both", ["trim"]), ("both", [])],
     "one-then-other": [("first", ["create"]), ("both", ["create"]), ("both", []), ("both", ["trim"]), ("both", [])],
@@ -192,7 +198,7 @@ def _hist_cases(tier):
     kinds = list(SITES)
     for a in kinds:
         for b in kinds:
-            if a == b:
+            if a == b or (a in EDGE_SITES and b in EDGE_SITES) or (tier == "quick" and b in EDGE_SITES and a != "txt"):
                 continue
             for flow in H_FLOWS:
                 for hl in ((12,) if tier == "quick" else (12, 64, 3)):
@@ -219,7 +225,7 @@ def _hist_file(kinds, prev_text):
     return imp + "\n\n".join("def test_%s():\n    assert %s == snapshot(%s)\n" % (k, SITES[k], old.get(k, "")) for k in kinds)
 
 
-def _hist_invariants(V, d, files, sp, kinds_by_file, label):
+def _hist_invariants(V, d, files, sp, kinds_by_file, label, before=None):
     """I1 name = sha256(content); I2 every reference written resolves to exactly one persisted file holding the outsourced bytes;
     I3 no persisted file without a reference (after trim: none unreferenced at all is not required)."""
     import os
@@ -234,11 +240,15 @@ def _hist_invariants(V, d, files, sp, kinds_by_file, label):
     for f, kinds in kinds_by_file.items():
         text = after[f].decode()
         for k in kinds:
-            m = re.search(r"def test_%s\(\):\n    assert .*? == snapshot\(external\(\"([0-9a-f]*)(\*?)(\.\w+)\"\)\)" % k, text)
+            m = re.search(r"def test_%s\(\):\n    assert .*? == snapshot\(external\(\"([0-9a-f]*)(\*?)([^\"]*)\"\)\)" % k, text)
             if not m:
                 continue
             data, suffix = SITE_DATA[k]
             cand = [n for n in store if "-new" not in n and n.startswith(m.group(1)) and n.endswith(m.group(3))]
+            if m.group(3) != suffix and before is not None and m.group(0) in before.get(f, ""):
+                # the reference was written by an earlier step (for other data) and this step's outsource() call rejected
+                # its suffix inside the test: nothing was compared, the old reference legitimately stays
+                continue
             if m.group(3) != suffix:
                 V("reference-has-wrong-suffix", "%s: test_%s -> %s" % (label, k, m.group(0)[-60:]))
             elif len(cand) != 1:
@@ -281,14 +291,15 @@ def _run_hist(case):
                 if plugin.internal_error(r["out"]) or r["rc"] not in (0, 1):
                     V("internal-error", "%s rc=%s %s" % (label, r["rc"], r["out"][-600:]))
                     break
-                store, after = _hist_invariants(V, d, None, sp, {"test_h.py": kinds}, label)
+                store, after = _hist_invariants(V, d, None, sp, {"test_h.py": kinds}, label, before={"test_h.py": src})
                 text = after["test_h.py"].decode()
                 stale = [x for x in store if "-new" in x and x in prev_new and not any(
                     hashlib.sha256(SITE_DATA[k][0]).hexdigest() + "-new" + SITE_DATA[k][1] == x for k in kinds)]
                 if stale:
                     V("stale-new-file-survived-session-start", "%s: %s" % (label, stale))
                 prev_new = {x for x in store if "-new" in x}
-                if not flags and "snapshot()" not in text and r["rc"] != 0:
+                rejected = "path has to be of the form" in r["out"] or "suffix has to start with" in r["out"]  # outsource() refused the suffix inside the test: a test failure of its own
+                if not flags and "snapshot()" not in text and r["rc"] != 0 and not rejected:
                     V("plain-session-fails-after-approved-sessions", "%s rc=%s %s" % (label, r["rc"], r["out"][-500:]))
                 if viol:
                     break
